@@ -38,6 +38,9 @@ CORPUS = [
     ({"Parameters": {"P": {"Type": "String", "Default": "True"}}, "Resources": {"B": {"Type": "AWS::S3::Bucket", "Properties": {"Tags": [{"Key": "k", "Value": {"Ref": "P"}}]}}}}, {}),
     # the value fetched from SSM is itself boolean-looking text (known finding: fetched text is not normalised)
     ({"Resources": {"B": {"Type": "AWS::S3::Bucket", "Properties": {"Tags": [{"Key": "k", "Value": "{{resolve:ssm:/cfg/flag}}"}]}}}}, {"/cfg/flag": "TRUE"}),
+    # text that json.loads reads as a non-finite number, reaching an unmodelled property through Ref
+    ({"Parameters": {"W": {"Type": "String", "Default": "1e999"}, "X": {"Type": "String", "Default": "Infinity"}, "Y": {"Type": "String", "Default": "NaN"}, "Z": {"Type": "String", "Default": "-Infinity"}},
+      "Resources": {"R": {"Type": "Custom::RoutingRecord", "Properties": {"Weight": {"Ref": "W"}, "Other": [{"Ref": "X"}, {"Ref": "Y"}], "Deep": {"k": {"Ref": "Z"}}}}}}, {}),
     # text assembled by Fn::Join
     ({"Resources": {"B": {"Type": "AWS::S3::Bucket", "Properties": {"Tags": [{"Key": "k", "Value": {"Fn::Join": ["", ["TR", "UE"]]}}]}}}}, {}),
 ]
